@@ -19,6 +19,55 @@ pub struct Unit {
     pub level: Level,
     pub max_occ: usize,
     pub values: Vec<Tok>,
+    /// metadata-only decoration of the argument item (must not change parsing):
+    /// 0 none, 1 displayed fallback, 2 group_help, 3 with_group_help, 4 custom_usage,
+    /// 5 hide_usage, 6 the whole level below a sub-command
+    #[serde(default)]
+    pub wrap: usize,
+}
+
+/// the definition with the decoration applied
+pub fn build_unit(u: &Unit) -> Opts {
+    let mut o = u.level.to_opts();
+    let arg_ix = u.level.named.iter().position(|n| n.kind.is_arg());
+    if let (P::Seq(fields), Some(ix)) = (&mut o.p, arg_ix) {
+        let f = fields[ix].clone();
+        fields[ix] = match u.wrap {
+            1 => {
+                // fallback(..).display_fallback(): same value, adds a `[default: ..]` suffix to the help
+                fn disp(p: P) -> P {
+                    match p {
+                        P::Fallback(x, v, _) => P::Fallback(x, v, true),
+                        P::Hide(x) => P::Hide(disp(*x).bx()),
+                        other => other,
+                    }
+                }
+                disp(f)
+            }
+            2 => P::GroupHelp(f.bx(), DocSpec::plain("a group")),
+            3 => P::WithGroupHelp(f.bx(), DocSpec::plain("generated group")),
+            4 => P::CustomUsage(f.bx(), DocSpec::plain("CUSTOM")),
+            5 => P::HideUsage(f.bx()),
+            _ => f,
+        };
+    }
+    if u.wrap == 6 {
+        o = Opts::new(P::Seq(vec![P::cmd("cmd", o)]));
+    }
+    o
+}
+/// the line and the expected value as seen through the decoration
+fn through(u_wrap: usize, argv: &[Tok], expected: Out) -> (Vec<Tok>, Out) {
+    if u_wrap != 6 {
+        return (argv.to_vec(), expected);
+    }
+    let mut v = vec![Tok::s("cmd")];
+    v.extend_from_slice(argv);
+    let e = match expected {
+        Out::Ok(val) => Out::Ok(Val::T(vec![Val::Cmd("cmd".into(), Box::new(val))])),
+        o => o,
+    };
+    (v, e)
 }
 
 #[derive(Clone, Debug, PartialEq, Eq, Serialize, Deserialize)]
@@ -211,7 +260,7 @@ fn same(a: &Out, r: &Outcome) -> bool {
     }
 }
 
-fn check_sentence(level: &Level, unit: &Value, p: &bpaf::OptionParser<Val>, sent: &[Occ], ctx: &mut Ctx) {
+fn check_sentence(level: &Level, wrap: usize, unit: &Value, p: &bpaf::OptionParser<Val>, sent: &[Occ], ctx: &mut Ctx) {
     let base = denote(level, sent);
     if let Out::Unspec(_) = base {
         ctx.s.skipped += 1;
@@ -238,7 +287,8 @@ fn check_sentence(level: &Level, unit: &Value, p: &bpaf::OptionParser<Val>, sent
             }
             fi += 1;
         }
-        let r = run(p, argv);
+        let (argv_w, expected) = through(wrap, argv, expected);
+        let r = run(p, &argv_w);
         classes.insert(r.class());
         if same(&expected, &r) {
             ctx.count(if matches!(expected, Out::Ok(_)) { "accepted" } else { "rejected" });
@@ -267,7 +317,8 @@ fn check_sentence(level: &Level, unit: &Value, p: &bpaf::OptionParser<Val>, sent
         for g in &groups {
             let keep = |k: usize| !g.contains(&k);
             let argv2 = render(level, sent, forms, &keep);
-            if same(&exp_for(&keep), &run(p, &argv2)) {
+            let (a2, e2) = through(wrap, &argv2, exp_for(&keep));
+            if same(&e2, &run(p, &a2)) {
                 blamed = Some(g);
                 break;
             }
@@ -276,7 +327,8 @@ fn check_sentence(level: &Level, unit: &Value, p: &bpaf::OptionParser<Val>, sent
             for g in &groups {
                 let keep = |k: usize| g.contains(&k);
                 let argv2 = render(level, sent, forms, &keep);
-                if !same(&exp_for(&keep), &run(p, &argv2)) {
+                let (a2, e2) = through(wrap, &argv2, exp_for(&keep));
+                if !same(&e2, &run(p, &a2)) {
                     blamed = Some(g);
                     break;
                 }
@@ -313,6 +365,9 @@ fn check_sentence(level: &Level, unit: &Value, p: &bpaf::OptionParser<Val>, sent
             }
         }
         sig.insert("observed".to_string(), r.class().to_string());
+        if wrap != 0 {
+            sig.insert("decoration".to_string(), wrap.to_string());
+        }
         ctx.violation(Violation {
             property: "C02".into(),
             rule: rule.into(),
@@ -482,6 +537,8 @@ fn name_sets() -> Vec<[(Option<char>, Option<&'static str>); 3]> {
         [(Some('a'), Some("alpha")), (Some('b'), None), (Some('n'), Some("name"))],
         [(Some('ä'), Some("älpha")), (Some('b'), Some("b-b")), (Some('é'), Some("naïve"))],
         [(Some('a'), None), (Some('日'), Some("日本")), (Some('n'), None)],
+        // four-byte characters as short names
+        [(Some('a'), Some("alpha")), (Some('𝛼'), None), (Some('🦀'), Some("crab"))],
     ]
 }
 
@@ -518,8 +575,18 @@ impl Check for C02 {
                         let la = Level { named: vec![f1, f2, arg.clone()], tail: Tail::None, version: None };
                         let lb = Level { named: vec![arg], tail: Tail::None, version: None };
                         let full = ty == Ty::Os || tier == Tier::Thorough;
-                        out.push(serde_json::to_value(Unit { level: la, max_occ: 3, values: if full && tier == Tier::Thorough { values_full() } else { values_small() } }).unwrap());
-                        out.push(serde_json::to_value(Unit { level: lb, max_occ: if kind == Kind::ArgMany { 2 } else { 1 }, values: if full { values_full() } else { values_small() } }).unwrap());
+                        out.push(serde_json::to_value(Unit { level: la.clone(), max_occ: 3, values: if full && tier == Tier::Thorough { values_full() } else { values_small() }, wrap: 0 }).unwrap());
+                        out.push(serde_json::to_value(Unit { level: lb, max_occ: if kind == Kind::ArgMany { 2 } else { 1 }, values: if full { values_full() } else { values_small() }, wrap: 0 }).unwrap());
+                        // metadata-only decorations around the argument (every wrapper the
+                        // short-name collection has to see through) on the three-item shape
+                        if ty == Ty::Os && (tier == Tier::Thorough || !adjacent) {
+                            for wrap in 1..=6usize {
+                                if wrap == 1 && kind != Kind::ArgFallback {
+                                    continue;
+                                }
+                                out.push(serde_json::to_value(Unit { level: la.clone(), max_occ: 2, values: values_small(), wrap }).unwrap());
+                            }
+                        }
                     }
                 }
             }
@@ -528,7 +595,7 @@ impl Check for C02 {
     }
     fn run_unit(&self, unit: &Value, ctx: &mut Ctx) {
         let u: Unit = serde_json::from_value(unit.clone()).unwrap();
-        let p = match build_checked(&u.level.to_opts()) {
+        let p = match build_checked(&build_unit(&u)) {
             Ok(p) => p,
             Err(e) => {
                 ctx.violation(Violation { property: "C02".into(), rule: "definition-builds".into(), sig: BTreeMap::new(), unit: unit.clone(), case: Value::Null, expected: "parser can be constructed".into(), observed: e, size: 0 });
@@ -537,19 +604,19 @@ impl Check for C02 {
         };
         for s in sentences(&u.level, &u.values, u.max_occ) {
             ctx.s.states += 1;
-            check_sentence(&u.level, unit, &p, &s, ctx);
+            check_sentence(&u.level, u.wrap, unit, &p, &s, ctx);
         }
     }
     fn replay(&self, unit: &Value, case: &Value, ctx: &mut Ctx) {
         let u: Unit = serde_json::from_value(unit.clone()).unwrap();
         let sent: Vec<Occ> = serde_json::from_value(case["sentence"].clone()).unwrap_or_default();
         let want: Option<Vec<Tok>> = serde_json::from_value(case["argv"].clone()).ok();
-        let p = match build_checked(&u.level.to_opts()) {
+        let p = match build_checked(&build_unit(&u)) {
             Ok(p) => p,
             Err(_) => return,
         };
         let mut c2 = Ctx::new(ctx.tier, ctx.seed);
-        check_sentence(&u.level, unit, &p, &sent, &mut c2);
+        check_sentence(&u.level, u.wrap, unit, &p, &sent, &mut c2);
         // keep only the violation for the recorded spelling (if given)
         for (k, (n, v)) in c2.s.violations {
             let same_argv = match &want {
@@ -563,7 +630,7 @@ impl Check for C02 {
         ctx.s.evaluations += c2.s.evaluations;
     }
     fn rule(&self) -> String {
-        "definitions = {3 name sets incl. non-ASCII shorts/longs} x {OsString, PathBuf, String, u32} x {plain, adjacent} x {required, optional, many, fallback, hidden optional, hidden many} in two shapes (two flags + argument; argument alone); abstract sentences = all sequences of <= max_occ occurrences (flag | argument with each value of the byte-string alphabet); for each sentence EVERY concrete spelling is generated (--n v, --n=v, -n v, -n=v, -nv, every alias, every clustering of adjacent flags, clusters ending in the argument with =/attached/detached value) and run; evaluation = one spelling run; non-trivial = sentence with more than one spelling".into()
+        "definitions = {4 name sets incl. 2-, 3- and 4-byte short names and non-ASCII longs} x {OsString, PathBuf, String, u32} x {plain, adjacent} x {required, optional, many, fallback, hidden optional, hidden many} in two shapes (two flags + argument; argument alone), the three-item shape also with the argument under every metadata-only decoration (displayed fallback, group_help, with_group_help, custom_usage, hide_usage) and below a sub-command; abstract sentences = all sequences of <= max_occ occurrences (flag | argument with each value of the byte-string alphabet); for each sentence EVERY concrete spelling is generated (--n v, --n=v, -n v, -n=v, -nv, every alias, every clustering of adjacent flags, clusters ending in the argument with =/attached/detached value) and run; evaluation = one spelling run; non-trivial = sentence with more than one spelling".into()
     }
     fn bounds(&self, tier: Tier) -> Value {
         json!({"occurrences_per_sentence": "<=3 (<=2 for the lone repeated argument)", "values": tier.pick("6 values (14 for OsString lone argument)", "14 values everywhere"), "value_alphabet": values_full()})
